@@ -14,7 +14,10 @@ def check(tier, seed, only=None, variants=("mh_sha1", "mh_sha256"), pid="C05"):
         raise evidence.Undecided("extraction broke: %s" % e)
     if pid == "C10":
         from . import murmur
-        jobs += murmur.jobs(os.path.join(runner.scratch(), "murmur"))
+        try:
+            jobs += murmur.jobs(os.path.join(runner.scratch(), "murmur"))
+        except overlay.OverlayError as e:
+            rep.add_undecided("extraction broke (murmur): %s" % e)
     if tier == "quick":
         # every instantiation #includes the SAME template text: quick proves the stand-alone (base) and the
         # avx2 instantiation, thorough all five
@@ -62,6 +65,24 @@ def check(tier, seed, only=None, variants=("mh_sha1", "mh_sha256"), pid="C05"):
         except Exception as e:
             rep.add_undecided("native mh check could not be built/run: %s" % e)
     else:
+        # bounded stand-in for the assumed stitched NASM block functions, and a concrete-input net under the murmur proofs
+        from . import native
+        try:
+            lmax, reps = (2200, 2) if tier == "quick" else (66000, 3)
+            d = native.mur_diff(os.path.join(runner.scratch(), "native_mur"), lmax, reps, seed)
+            rep.bounded.append({"what": "isal_mh_sha1_murmur3_x64_128_{init,update,finalize} on the real code (dispatched family): murmur half == "
+                                        "MurmurHash3_x64_128 (Appleby's reference), mh_sha1 half == stand-alone isal_mh_sha1; random seeds, "
+                                        "segmentations (incl. empty pieces) and alignments",
+                                "label": "bounded", "bound": "every length 0..1100, then to %d; %d repetitions" % (lmax, reps),
+                                "evaluations": d["calls"], "distinct_nontrivial": d["cases"], "agree": d["ok"], "cmd": d["cmd"]})
+            if not d["ok"]:
+                path = os.path.join(rep.replay_dir(), "mur_diff.txt")
+                with open(path, "w") as f:
+                    f.write("native/mur_diff.c on the real code from /repo\n$ " + d["cmd"] + "\n" + d["text"])
+                rep.add_violation("native/mur_diff:stitched:end_to_end", "bounded end-to-end check, real code disagrees with the definition: "
+                                  + d["text"].split("\n")[0][:220], path, True)
+        except Exception as e:
+            rep.add_undecided("native murmur check could not be built/run: %s" % e)
         rep.assumptions.append("ASSUMED: stitched block functions _mh_sha1_murmur3_x64_128_block_* = mh_sha1 block function || 64 murmur blocks per 1024 bytes, in order; "
                                "_murmur3_x64_128_block/_tail are PROVED equal to Appleby's MurmurHash3_x64_128 body step / tail + finalisation (jobs murmur/*: "
                                "body per block with the loop count bounded by 3 - the loop body is the same code for every block -, tail for every length with a "
